@@ -303,6 +303,7 @@ def build_gen(data, hists):
     out.append("Definition sigflags : list (N * N) := %s." % cmap(sigflags.items()))
     out.append("Definition mall_false : bool := %s." % cbool(mall_false))
     out.append("Definition mall_true : bool := %s." % cbool(mall_true))
+    out.append("Definition keep_unknown : bool := %s." % cbool(bool(mp.get("keeps_unknown", False))))
     out.append("")
     out += case_lines
     ids = [h["id"] for h in hists]
@@ -312,6 +313,7 @@ def build_gen(data, hists):
     out.append("Definition all_cases : list pcase := %s." % (" ++ ".join("cases_%d" % n for n in range(len(chunks))) or "[]"))
     meta = {"tries": n_tries, "distinct_try_keys": len(global_try), "conflicts": conflicts, "unstable": unstable,
             "inputs_defined": len(used_inputs), "mall_false": mall_false, "mall_true": mall_true,
+            "keep_unknown": bool(mp.get("keeps_unknown", False)),
             "interned_values": len(g.I.ids)}
     return "\n".join(out) + "\n", meta
 
@@ -509,6 +511,7 @@ def run(rep, tier, seed, replay):
         "try_outcomes_observed": meta["tries"], "distinct_try_keys": meta["distinct_try_keys"],
         "model_vs_impl_differing_histories": n_diff, "monitor_verdicts": n_mon,
         "finalize_inp_mall_mut_allows_malleable": meta["mall_true"],
+        "finalized_input_keeps_unknown_fields": meta["keep_unknown"],
         "mall_probe": data["mall"],
         "samples": samples,
     })
